@@ -1,4 +1,105 @@
 import LlgoVerif.Lemmas.TypeStr
+/-!
+# C15 — reflect describes types as Go does: the COMPILER-EMITTED half
+
+Property theorems only.  Model: `Model/TypeStr.lean` (`ssa/abi/type.go` `Str`/`TFlag`/`Kind`, the table
+builders of `ssa/abitype.go`); lemmas: `Lemmas/TypeStr.lean`.  `reflectString env t` is what
+`(*abi.Type).String()` returns for the descriptor llgo emits for `t`.
+
+NOT covered (cannot be built or run in the sandbox): `runtime/internal/lib/reflect`, `fmt`.
+-/
 namespace LlgoVerif.Types
-theorem stub_c15 : True := trivial
+
+/-! ## type strings -/
+
+/-- **Full statement**: the emitted type string is Go's `reflect.Type.String()` for every type.
+    FALSE on the current code. -/
+def typeString_grammar (q : Str → Str) : Prop :=
+  ∀ (env : Env) (t : GoType), reflectString env t = goStr q env t
+
+/-- an environment in which declaration `1` is `type Ptr *T` (its underlying type carries `ExtraStar`) -/
+def envPtr : Env :=
+  { pkgName := fun _ => ['p'], underStar := fun d => d == 1, underKind := fun _ => .pointer,
+    underVariadic := fun _ => false, underClosure := fun _ => false }
+
+/-- **Counterexample (named pointer types).** For `type Ptr *T` the flag `TFlagExtraStar` is inherited
+    from the underlying type and `String()` prepends a star: `*p.Ptr` instead of `p.Ptr`.  Replayed
+    on the real `ssa/abi` and on llgo's emitted IR by the check (finding `reflect:string:named-pointer-type`). -/
+theorem typeString_grammar_counterexample (q : Str → Str) : ¬ typeString_grammar q := by
+  intro h
+  have := h envPtr (.named 1 (some ['p']) ['P', 't', 'r'] .pkg .nil)
+  simp [reflectString, star, extraStar, strC, goStr, envPtr, TList.isNil] at this
+
+/-- further witnesses outside the fragment: a pointer map key loses its star, `chan (<-chan int)` is
+    not parenthesised, a tag is not printed — each for an arbitrary environment -/
+theorem typeString_grammar_more_counterexamples (q : Str → Str) (env : Env) :
+    reflectString env (.map (.pointer (.basic .int)) (.basic .string)) ≠ goStr q env (.map (.pointer (.basic .int)) (.basic .string)) ∧
+    reflectString env (.chan .both (.chan .recv (.basic .int))) ≠ goStr q env (.chan .both (.chan .recv (.basic .int))) := by
+  constructor
+  · intro h
+    have := congrArg List.length h
+    simp [reflectString, star, extraStar, strC, goStr] at this
+  · intro h
+    have := congrArg List.length h
+    simp [reflectString, star, extraStar, strC, goStr, chanParen, isRecvChan, unalias] at this
+    omega
+
+/-- **Partial theorem** (`typeString_grammar` on the fragment `strOk`): for every environment and
+    every type without named-pointer types, tags, closure structs, star-flagged map keys,
+    `chan (<-chan T)` and func/struct type arguments, the string `String()` computes from the emitted
+    `Str_` and `TFlagExtraStar` is exactly Go's rendering — i.e. llgo's inverted star bookkeeping
+    (`**` in `Str` of a pointer to a pointer, star added by flag) is consistent, through every
+    nesting of pointer / slice / array / map / chan / func (incl. `...`) / struct / interface /
+    generic instance. -/
+theorem typeString_grammar_partial (q : Str → Str) (env : Env) (t : GoType) (h : strOk env t = true) :
+    reflectString env t = goStr q env t := real_eq_go q env t h
+
+/-- the hypothesis is satisfiable by a deeply nested type:
+    `map[string][]**func(int, ...*p.T) (chan<- p.G[*vm/p.T], error)` -/
+example :
+    let env : Env := { pkgName := fun _ => ['p'], underStar := fun _ => false, underKind := fun _ => .struct,
+                       underVariadic := fun _ => false, underClosure := fun _ => false }
+    let pT : GoType := .named 1 (some ['v', 'm', '/', 'p']) ['T'] .pkg .nil
+    strOk env (.map (.basic .string) (.slice (.pointer (.pointer (.func
+      (.cons (.basic .int) (.cons (.slice (.pointer pT)) .nil))
+      (.cons (.chan .send (.named 2 (some ['v', 'm', '/', 'p']) ['G'] .pkg (.cons (.pointer pT) .nil)))
+        (.cons (.named 3 none ['e', 'r', 'r', 'o', 'r'] .pkg .nil) .nil)) true))))) = true := by decide
+
+/-! ## method tables -/
+
+/-- **The method table is sorted and duplicate-free** (the precondition of C07's
+    `newItab_scan_correct` / `findMethod`): go/types delivers a method set strictly increasing by
+    `Id`; when no method belongs to a package under the patch prefix, the emitted names are the
+    `Id`s, so the emitted table is strictly increasing in Go's string order — for ALL method sets. -/
+theorem methods_sorted_unique (ms : List MethodIn) (hs : SortedById ms) (hp : noPatchPkg ms = true) :
+    (methodTable ms).Pairwise fun a b => strLt a.1 b.1 = true := methodTable_sorted ms hs hp
+
+example : SortedById [⟨['M'], none, []⟩, ⟨['k'], some ['v', 'm', '/', 'p'], []⟩] ∧
+    noPatchPkg [⟨['M'], none, []⟩, ⟨['k'], some ['v', 'm', '/', 'p'], []⟩] = true := by
+  constructor
+  · simp [SortedById]; decide
+  · decide
+
+/-- **The patch-prefix hypothesis matters**: two promoted unexported methods, one from a patched
+    package, are in `Id` order but their emitted names (`PathOf` strips the prefix) are not sorted. -/
+theorem methods_sorted_counterexample :
+    ∃ ms : List MethodIn, SortedById ms ∧ ¬ (methodTable ms).Pairwise fun a b => strLt a.1 b.1 = true := by
+  refine ⟨[⟨['m'], some (patchPrefix ++ ['s', 'y', 'n', 'c']), []⟩, ⟨['x'], some ['i', 'o'], []⟩], ?_, ?_⟩
+  · simp [SortedById]; decide
+  · decide
+
+/-- the exported count is the number of exported methods of the set -/
+theorem xcount_le (ms : List MethodIn) : xcount ms ≤ (methodTable ms).length := by
+  simp [xcount, methodTable]; exact List.length_filter_le _ _
+
+/-! ## field tables -/
+
+/-- **Field tables are faithful**: `abiStructFields` emits one entry per field, in declaration
+    order, with the declared name, tag and embedding flag (what it cannot do is give two tag
+    variants different tables: they share a symbol — C07 `samename:tag`). -/
+theorem fields_faithful (name : Str) (pkg : Option Str) (emb : Bool) (tag : Str) (t : GoType) (r : FList) :
+    fieldTable (.cons name pkg emb tag t r) = (name, tag, emb) :: fieldTable r ∧
+    (fieldTable (.cons name pkg emb tag t r)).length = (FList.cons name pkg emb tag t r).length := by
+  exact ⟨rfl, fieldTable_length _⟩
+
 end LlgoVerif.Types
